@@ -183,6 +183,12 @@ theorem reader_refines_spec_attrs (w : String) (files : List FileEntry) (vals : 
       .ok ((files.zip vals).map (fun (f, v) => { f with attributes := slotOfOpt v }), r) :=
   (sOptVector_attrs_refines w files vals s r hs h).1
 
+/-- the bit fields of FilesInfo (EmptyStream, EmptyFile): where the strict reader accepts `n` bits — most significant
+    first, padding bits zero — py7zr's bit loop reads the same bits from the same bytes -/
+theorem reader_refines_spec_bitfield (n : Nat) (w : String) (s : Bytes) (hs : Inp s) (bits : List Bool) (r : Bytes)
+    (h : Spec.sBitField n w s = .ok (bits, r)) : Impl.readBits n s = some (bits, r) :=
+  (sBitField_refines hs.1 h).1
+
 /-- every folder whose coders are chained linearly without bind pairs to spare — one coder, no bind pair — has one
     result (the shape of every folder of a one-coder chain) -/
 theorem oneOut_single (f : Spec.SFolder) (hb : f.bindpairs = []) (hu : f.unpackSizes.length ≤ 1) : OneOut f := by
